@@ -453,6 +453,55 @@ func runSiblingAbort(rec *vcommon.Rec, carrier, closer, aborter string) {
 	rec.Stat("bytes_verified_before_eof", c.Len)
 }
 
+// runInstantClose: the application connects and closes at once without writing a byte (payload 0, application first),
+// one connection after the other. The target must see each of them: a connection, no data, end-of-stream.
+func runInstantClose(rec *vcommon.Rec, carrier string, total int) {
+	c := &c17Case{Carrier: carrier, Closer: "app", Mode: fmt.Sprintf("connect-and-close-at-once:%d", total), Len: 0, Seed: rec.Seed()*10000 + 9800}
+	rec.Mark(c)
+	p, err := e2e.Start(e2e.Options{Carrier: carrier, Tag: "i"})
+	if err != nil {
+		rec.Violation(carrier+":setup-failed", c, err.Error())
+		return
+	}
+	defer p.Close()
+	ok := int64(0)
+	for i := 0; i < total; i++ {
+		app, err := p.Dial("echo")
+		if err != nil {
+			rec.Inconclusive("instant close: dial of the client's listener failed: "+err.Error(), c)
+			return
+		}
+		app.Close()
+		tgt, o := p.Targets["echo"].Next()
+		var f *e2e.Failure
+		switch o {
+		case e2e.Inconclusive:
+			rec.Inconclusive("instant close: busy", c)
+			return
+		case e2e.Stalled:
+			f = &e2e.Failure{Kind: "c2t:target-never-saw-the-connection"}
+		default:
+			f = e2e.ExpectEOF(tgt, "c2t")
+			tgt.Close()
+		}
+		if f != nil {
+			rec.Case(fmt.Sprintf("instant/%s/%d", carrier, total), !f.Inconclusive)
+			if f.Inconclusive {
+				rec.Inconclusive("instant close: "+f.Kind, c)
+				return
+			}
+			rec.Violation(fmt.Sprintf("%s:closer=app:connect-and-close-at-once:%s", carrier, f.Kind), c, map[string]interface{}{"connection_number": i, "verified_before": ok, "detail": f.Info})
+			return
+		}
+		ok++
+		e2e.Bump(1)
+	}
+	rec.Case(fmt.Sprintf("instant/%s/%d", carrier, total), true)
+	rec.Seen("tuple(carrier,closer,mode,len-class,others,reverse)", fmt.Sprintf("%s|app|connect-and-close-at-once|%s|0|idle", carrier, lenName(0)))
+	rec.Stat("closes_verified", ok)
+	rec.Stat("instant_closes_verified:"+carrier, ok)
+}
+
 // runManyCloses: thousands of short logical connections on one session, 8 at a time: the closer writes 65537 bytes
 // in 4 KiB writes and closes at once; the other end must read exactly that and then end-of-stream. The multiplexer's
 // last data frame and its FIN travel back to back here, which is where an end-of-stream can overtake data.
@@ -587,6 +636,11 @@ func TestVerifC17(t *testing.T) {
 			fmt.Sscanf(c.Mode[len("many-closes:"):], "%d", &n)
 			runManyCloses(rec, c.Carrier, c.Closer, n)
 			return
+		case strings.HasPrefix(c.Mode, "connect-and-close-at-once:"):
+			n := 150
+			fmt.Sscanf(c.Mode[len("connect-and-close-at-once:"):], "%d", &n)
+			runInstantClose(rec, c.Carrier, n)
+			return
 		case strings.HasPrefix(c.Mode, "sibling-aborts:"):
 			runSiblingAbort(rec, c.Carrier, c.Closer, c.Mode[len("sibling-aborts:"):])
 			return
@@ -636,6 +690,11 @@ func TestVerifC17(t *testing.T) {
 		for i, x := range many {
 			if rec.Mine(len(carriers) + 11 + i) {
 				runManyCloses(rec, x.carrier, x.closer, rec.Pick(4000, 20000))
+			}
+		}
+		for i, cr := range []string{"tcp", "ws", "udp"} {
+			if rec.Mine(len(carriers) + 15 + i) {
+				runInstantClose(rec, cr, rec.Pick(150, 1000))
 			}
 		}
 	}
